@@ -279,3 +279,70 @@ def fork_call(fn, *args, timeout=300):
     if not data:
         return ("died", status)
     return pickle.loads(data)
+
+
+# --------------------------------------------------------------------------
+# operation-sequence (history) search shared by the property modules
+# --------------------------------------------------------------------------
+def history_refs(op_digest, names, timeout=300):
+    """digest of every operation executed as the first call of a pristine
+    interpreter (forked from the caller, which must not have run anything)"""
+    refs = {}
+    for name in names:
+        st, val = fork_call(op_digest, name, timeout=timeout)
+        refs[name] = val if st == "ok" else "FAILED:%s:%r" % (st, val)
+    return refs
+
+
+def history_seqs(ops, core=None, depth=3):
+    """every sequence of length <= 2 over ops, and of length 3..depth over
+    `core` (default: all of ops)"""
+    import itertools
+    core = list(ops) if core is None else list(core)
+    seqs = [[o] for o in ops] + [list(s) for s in
+                                 itertools.product(ops, repeat=2)]
+    for L in range(3, depth + 1):
+        seqs += [list(s) for s in itertools.product(core, repeat=L)]
+    return seqs
+
+
+def history_cases(prefix, refs, seqs, **extra):
+    out = []
+    for seq in seqs:
+        c = {"id": "%s:%s" % (prefix, ">".join(seq)), "kind": prefix,
+             "seq": seq, "ref": {o: refs[o] for o in seq}}
+        c.update(extra)
+        out.append(c)
+    return out
+
+
+def run_history(ck, case, op_digest, inputs_fp=None, check="history"):
+    """every step of case['seq'], run in this one interpreter, must give the
+    digest the same operation gives in a pristine interpreter, and must leave
+    the objects shared between the operations as they were"""
+    seq, ref = case["seq"], case["ref"]
+    for name in seq:
+        if str(ref[name]).startswith("FAILED"):
+            ck.true(check + "-pristine-reference", False,
+                    "operation %s failed as the first call of a pristine "
+                    "interpreter: %s" % (name, ref[name]))
+            return "ref-failed"
+    before = inputs_fp() if inputs_fp else None
+    outs = []
+    for i, name in enumerate(seq):
+        try:
+            got = op_digest(name)
+        except Exception as e:                  # noqa
+            got = "RAISED:%s: %s" % (type(e).__name__, str(e)[:200])
+        ck.trans += 1
+        ck.true(check + "-independent", got == ref[name],
+                "step %d (%s) of %s differs from the same call as the first "
+                "call of an interpreter%s" % (
+                    i + 1, name, ">".join(seq),
+                    " (%s)" % got if str(got).startswith("RAISED") else ""))
+        if inputs_fp:
+            ck.true(check + "-input-untouched", inputs_fp() == before,
+                    "an object shared between the operations was modified "
+                    "by step %d (%s)" % (i + 1, name))
+        outs.append(got)
+    return digest(*outs)
